@@ -240,12 +240,29 @@ fn main() {
         .map(|l| l.unwrap())
         .filter(|l| !l.trim().is_empty())
         .collect();
+    // Watchdog: a case that runs for 30 s of wall-clock time without returning (a healthy case
+    // takes milliseconds) ends the process with status 3; the driver then re-runs the cases of this
+    // file one by one and records which one does not come back.
+    let started = std::sync::Arc::new(std::sync::atomic::AtomicU64::new(0));
+    let epoch = std::time::Instant::now();
+    {
+        let started = started.clone();
+        std::thread::spawn(move || loop {
+            std::thread::sleep(std::time::Duration::from_millis(500));
+            let s = started.load(std::sync::atomic::Ordering::Relaxed);
+            if s > 0 && epoch.elapsed().as_millis() as u64 > s + 30_000 {
+                eprintln!("watchdog: a case ran for more than 30 s");
+                std::process::exit(3);
+            }
+        });
+    }
     let handle = std::thread::Builder::new()
         .stack_size(512 << 20)
         .spawn(move || {
             let mut out: Vec<String> = vec![];
             for line in lines {
                 let case: Value = serde_json::from_str(&line).expect("case json");
+                started.store(epoch.elapsed().as_millis() as u64 + 1, std::sync::atomic::Ordering::Relaxed);
                 for rec in run_case(&case) {
                     out.push(serde_json::to_string(&rec).unwrap());
                 }
